@@ -19,7 +19,7 @@ macro_rules! lock_arm_u64 {
         arm_harness!($name, $stub, 4, {
             let (mut w, spend) = world_with(SYM_LOCKS | SYM_COSTS | SYM_AMOUNTS);
             let v: u64 = kani::any();
-            unsafe { P_U64 = v };
+            unsafe { crate::stubs::G.p_u64 = v };
             let list = one_condition(&mut w.a, $op);
             let mut o = run_empty(&mut w, spend, list, $kind);
             check_outcome(&mut w, &mut o, $op, $ac(v));
@@ -34,7 +34,7 @@ macro_rules! lock_arm_u32 {
         arm_harness!($name, $stub, 4, {
             let (mut w, spend) = world_with(SYM_LOCKS | SYM_COSTS | SYM_AMOUNTS);
             let v: u32 = kani::any();
-            unsafe { P_U32 = v };
+            unsafe { crate::stubs::G.p_u32 = v };
             let list = one_condition(&mut w.a, $op);
             let mut o = run_empty(&mut w, spend, list, $kind);
             check_outcome(&mut w, &mut o, $op, $ac(v));
@@ -50,7 +50,7 @@ macro_rules! lock_arm_u64_nofail {
         arm_harness!($name, $stub, 4, {
             let (mut w, spend) = world_with(SYM_LOCKS | SYM_COSTS | SYM_AMOUNTS);
             let v: u64 = kani::any();
-            unsafe { P_U64 = v };
+            unsafe { crate::stubs::G.p_u64 = v };
             let list = one_condition(&mut w.a, $op);
             let mut o = run_empty(&mut w, spend, list, $kind);
             check_outcome(&mut w, &mut o, $op, $ac(v));
@@ -65,7 +65,7 @@ macro_rules! lock_arm_u32_nofail {
         arm_harness!($name, $stub, 4, {
             let (mut w, spend) = world_with(SYM_LOCKS | SYM_COSTS | SYM_AMOUNTS);
             let v: u32 = kani::any();
-            unsafe { P_U32 = v };
+            unsafe { crate::stubs::G.p_u32 = v };
             let list = one_condition(&mut w.a, $op);
             let mut o = run_empty(&mut w, spend, list, $kind);
             check_outcome(&mut w, &mut o, $op, $ac(v));
@@ -108,7 +108,7 @@ arm_harness!(arm_lock_skip_relative, crate::arm::pa_skip_relative, 4, {
 arm_harness!(arm_value_reserve_fee, crate::arm::pa_reserve_fee, 4, {
     let (mut w, spend) = world_with(SYM_LOCKS | SYM_COSTS | SYM_AMOUNTS);
     let v: u64 = kani::any();
-    unsafe { P_U64 = v };
+    unsafe { crate::stubs::G.p_u64 = v };
     let list = one_condition(&mut w.a, 52);
     let mut o = run_empty(&mut w, spend, list, K_RESERVE_FEE);
     check_outcome(&mut w, &mut o, 52, AC::ReserveFee(v));
@@ -141,9 +141,9 @@ arm_harness!(arm_value_create_coin, crate::arm::pa_create_coin, 36, {
     }
     let dup = have_prev && prev_ph == ph && prev_amount == amount;
     unsafe {
-        P_N1 = phn;
-        P_U64 = amount;
-        P_N2 = hint;
+        crate::stubs::G.p_n1 = phn;
+        crate::stubs::G.p_u64 = amount;
+        crate::stubs::G.p_n2 = hint;
     }
     let list = one_condition(&mut w.a, 51);
     let mut o = run_empty(&mut w, spend, list, K_CREATE_COIN);
@@ -167,7 +167,7 @@ arm_harness!(arm_value_create_coin, crate::arm::pa_create_coin, 36, {
 arm_harness!(arm_self_my_amount, crate::arm::pa_my_amount, 4, {
     let (mut w, spend) = world_with(SYM_LOCKS | SYM_COSTS | SYM_AMOUNTS);
     let v: u64 = kani::any();
-    unsafe { P_U64 = v };
+    unsafe { crate::stubs::G.p_u64 = v };
     let list = one_condition(&mut w.a, 73);
     let mut o = run_empty(&mut w, spend, list, K_MY_AMOUNT);
     check_outcome(&mut w, &mut o, 73, AC::MyAmount(v));
@@ -180,7 +180,7 @@ arm_harness!(arm_self_my_coin_id, crate::arm::pa_my_coin_id, 36, {
     let (mut w, spend) = world_with(SYM_IDS | SYM_COSTS);
     let id: [u8; 32] = kani::any();
     let n = w.a.new_atom(&id).unwrap();
-    unsafe { P_N1 = n };
+    unsafe { crate::stubs::G.p_n1 = n };
     let list = one_condition(&mut w.a, 70);
     let mut o = run_empty(&mut w, spend, list, K_MY_COIN_ID);
     let eq = id == w.coin_id;
@@ -194,7 +194,7 @@ arm_harness!(arm_self_my_parent_id, crate::arm::pa_my_parent_id, 36, {
     let (mut w, spend) = world_with(SYM_IDS | SYM_COSTS);
     let id: [u8; 32] = kani::any();
     let n = w.a.new_atom(&id).unwrap();
-    unsafe { P_N1 = n };
+    unsafe { crate::stubs::G.p_n1 = n };
     let list = one_condition(&mut w.a, 71);
     let mut o = run_empty(&mut w, spend, list, K_MY_PARENT_ID);
     let eq = id == w.parent_bytes;
@@ -208,7 +208,7 @@ arm_harness!(arm_self_my_puzzlehash, crate::arm::pa_my_puzzlehash, 36, {
     let (mut w, spend) = world_with(SYM_IDS | SYM_COSTS);
     let id: [u8; 32] = kani::any();
     let n = w.a.new_atom(&id).unwrap();
-    unsafe { P_N1 = n };
+    unsafe { crate::stubs::G.p_n1 = n };
     let list = one_condition(&mut w.a, 72);
     let mut o = run_empty(&mut w, spend, list, K_MY_PUZZLEHASH);
     let eq = id == w.ph_bytes;
@@ -241,7 +241,7 @@ macro_rules! node_set_arm {
             let (mut w, spend) = world_with(SYM_LOCKS | SYM_COSTS | SYM_AMOUNTS);
             let b: [u8; 32] = kani::any();
             let n = w.a.new_atom(&b).unwrap();
-            unsafe { P_N1 = n };
+            unsafe { crate::stubs::G.p_n1 = n };
             let already: bool = kani::any();
             let other = w.a.new_atom(&[0x44; 32]).unwrap();
             w.state.verif_view().$field.insert(if already { n } else { other });
@@ -267,7 +267,7 @@ arm_harness!(arm_ann_create_coin_ann, crate::arm::pa_create_coin_ann, 36, {
     let (mut w, spend) = world_with(SYM_IDS | SYM_COSTS);
     let m: [u8; 3] = kani::any();
     let n = w.a.new_atom(&m).unwrap();
-    unsafe { P_N1 = n };
+    unsafe { crate::stubs::G.p_n1 = n };
     let list = one_condition(&mut w.a, 60);
     let mut o = run_empty(&mut w, spend, list, K_CREATE_COIN_ANN);
     check_outcome(&mut w, &mut o, 60, AC::CreateCoinAnn(false));
@@ -286,7 +286,7 @@ arm_harness!(arm_ann_create_puzzle_ann, crate::arm::pa_create_puzzle_ann, 4, {
     let (mut w, spend) = world_with(SYM_LOCKS | SYM_COSTS | SYM_AMOUNTS);
     let m: [u8; 3] = kani::any();
     let n = w.a.new_atom(&m).unwrap();
-    unsafe { P_N1 = n };
+    unsafe { crate::stubs::G.p_n1 = n };
     let list = one_condition(&mut w.a, 62);
     let mut o = run_empty(&mut w, spend, list, K_CREATE_PUZZLE_ANN);
     check_outcome(&mut w, &mut o, 62, AC::CreatePuzzleAnn(false));
@@ -305,7 +305,7 @@ arm_harness!(arm_ann_create_puzzle_ann, crate::arm::pa_create_puzzle_ann, 4, {
 arm_harness!(arm_cost_softfork, crate::arm::pa_softfork, 4, {
     let (mut w, spend) = world_with(SYM_LOCKS | SYM_COSTS | SYM_AMOUNTS);
     let c: u64 = kani::any();
-    unsafe { P_U64 = c };
+    unsafe { crate::stubs::G.p_u64 = c };
     // Inv extension: the softfork cost argument is at most 2^32 * 10000
     kani::assume(c <= (u32::MAX as u64) * 10000);
     kani::assume(w.ret.condition_cost.checked_add(w.max_cost).is_some());
@@ -332,7 +332,7 @@ arm_harness!(arm_cost_two_byte_opcode, crate::arm::pa_softfork, 4, {
     // stub supplies an arbitrary cost, the pre-charge for the opcode itself is GENERIC
     let (mut w, spend) = world_with(SYM_LOCKS | SYM_COSTS | SYM_AMOUNTS);
     let c: u64 = kani::any();
-    unsafe { P_U64 = c };
+    unsafe { crate::stubs::G.p_u64 = c };
     let op: u16 = kani::any();
     kani::assume(op >= 256);
     let list = one_condition(&mut w.a, op);
